@@ -37,6 +37,7 @@ var zzC14Catalogue = []zzAttrSpec{
 	/* 18 */ {`style=""`, "style"},
 	/* 19 */ {`v-text="tx"`, "v-text"},
 	/* 20 */ {`v-html="hx"`, "v-html"},
+	/* 21 */ {`style="color : red ; margin : 0"`, "style"},
 }
 
 // VerifC14_Attrs: differential against a reference attribute evaluator
@@ -49,7 +50,7 @@ func VerifC14_Attrs() {
 	seen := map[string]bool{}
 	var src strings.Builder
 	// optionally start from a static attribute and a binding of the same name
-	pre := [][]int{nil, {7, 8}, {7, 9}, {10, 11}, {16, 15}, {8, 7}, {10, 17}}[zzChoice("collision", 7)]
+	pre := [][]int{nil, {7, 8}, {7, 9}, {10, 11}, {16, 15}, {8, 7}, {10, 17}, {21, 11}, {21, 12}}[zzChoice("collision", 9)]
 	for _, k := range pre {
 		spec := zzC14Catalogue[k]
 		seen[spec.name] = true
@@ -155,7 +156,7 @@ func VerifC14_Attrs() {
 				hasClass = true
 				classParts = append(classParts, "on")
 			}
-		case 10:
+		case 10, 21:
 			hasStyle = true
 			styleDecl["color"] = "red"
 			styleDecl["margin"] = "0"
@@ -273,8 +274,10 @@ func VerifC14_Attrs() {
 			zzAssert(gotDecl[k] == v, "C14.attrs.style-value")
 		}
 	}
-	for _, d := range []string{"v-if", "v-else", "v-for", "v-show", "v-once", "v-bind", ":", "["} {
-		zzAssert(!strings.Contains(tag, " "+d), "C14.attrs.directive-leaked")
+	for _, d := range []string{"v-if", "v-else", "v-for", "v-show", "v-once", "v-bind", "v-text", "v-html", ":", "["} {
+		for _, name := range order {
+			zzAssert(!strings.HasPrefix(name, d), "C14.attrs.directive-leaked")
+		}
 	}
 }
 
